@@ -20,8 +20,10 @@ keyword vs positional arguments or on whether a sub-expression has a name.
             tracked) in each pass of a loop that runs exactly while ts < latest; `ts > latest`
             afterwards never continues normally; _first_run is cleared only after all groups.
   C06.FSYNC the fallback synchronisation keeps per-timestamp alignment (shared with C19.SYNC).
-  C06.3PH   the three-phase engine receives exactly one sample per phase per round and stamps the
-            output with a received timestamp.
+  C06.3PH   the three per-phase engines synchronise only their own inputs: in every round each phase is
+            received, the reference is max(the three timestamps), a phase behind it is received again from
+            its own receiver until it is not (drain loop; an aligned phase is not touched), and the sample
+            sent takes value k from phase k's final sample and its timestamp from those samples.
   C06.TOTAL no step's apply() can raise (shared with C13.TOTAL): FormulaEngine._run drops the round on any
             exception after every input was consumed, i.e. the timestamp would be skipped.
 
@@ -985,11 +987,27 @@ def check_sync(run: Run, prog: Program, rule: str = "C06.SYNC") -> None:
 
 # ---------------------------------------------------------------------------------------------
 def check_3ph(run: Run, prog: Program) -> None:
+    """C06.3PH: the three per-phase engines synchronise only their own inputs, so their outputs may start at
+    different timestamps.  On every path of a round that reaches the send, the three samples whose values are
+    combined are established to carry the stamped timestamp:
+
+      * every phase is received (at least once) in the round, from its own receiver;
+      * the reference is max(<the three samples' timestamps of this round>);
+      * a phase whose sample is older than the reference is received again -- from the same receiver, into the
+        same role -- and the comparison is made again afterwards (a drain loop); a phase that is not older is not
+        received again (with aligned phases: exactly one receive per phase and round);
+      * the sample built takes value k from the (final) sample of phase k, in phase order, and its timestamp from
+        one of them (read after the drains) or from the reference; that sample is what is sent.
+    """
     raw = prog.func(f"{ENGINE}:FormulaEngine3Phase._run")
     run.analysed(raw.qual)
-    fn = spliced(prog, raw)
+    fn = inline_all(prog, raw)
+    for nm in sorted(getattr(fn.node, "_inlined", ())):
+        if raw.cls is not None and nm in raw.cls.methods:
+            run.analysed(raw.cls.methods[nm].qual)
     fl = Flow(prog, fn)
     cfg = fl.cfg
+    normal = lambda a, b, lab: not lab.startswith("exc:")  # noqa: E731
     # receivers: one per phase stream
     rx: dict[int, ast.Call] = {}
     dup = False
@@ -1001,45 +1019,143 @@ def check_3ph(run: Run, prog: Program) -> None:
             rx[base.slice.value] = c
     ok = sorted(rx) == [0, 1, 2] and not dup
     run.check(ok, "C06.3PH", raw.qual, "one receiver per phase", f"receivers: {sorted(rx)}", node=raw.node, file=raw.file)
-    loops = [h for h in cfg.nodes if h.kind == "while" and h.id in fl.live]
-    if len(loops) != 1:
-        raise AnalysisError(f"{raw.qual}: loop not found")
-    h = loops[0]
-    first = [m for m, lab in cfg.succ[h.id] if lab == "true"]
-    body = cfg.reachable(first, avoid=[h.id])
-    normal = lambda a, b, lab: not lab.startswith("exc:")  # noqa: E731
+    if not ok:
+        return
     sends = [nid for nid, c in fl.calls(lambda c: method_call(c, None, "send")) if isinstance(fl._parent.get(id(c)), ast.Await)]
+    whiles = [h for h in cfg.nodes if h.kind == "while" and h.id in fl.live]
+    bodies = {h.id: cfg.reachable([m for m, lab in cfg.succ[h.id] if lab == "true"], avoid=[h.id]) for h in whiles}
+    rounds = [h for h in whiles if any(s_ in bodies[h.id] for s_ in sends) and not any(
+        h.id in bodies[o.id] for o in whiles if o.id != h.id and any(s_ in bodies[o.id] for s_ in sends))]
+    if len(rounds) != 1 or not sends:
+        raise AnalysisError(f"{raw.qual}: the round loop (receive ... send) was not found")
+    h = rounds[0]
+    first = [m for m, lab in cfg.succ[h.id] if lab == "true"]
+    body = bodies[h.id]
     recv: dict[int, list[tuple[int, ast.Call]]] = {i: [] for i in rx}
     for nid, c in fl.calls(lambda c: method_call(c, None, "receive")):
-        for i, mk in rx.items():
-            if fl.is_node(c.func.value, mk, nid):  # type: ignore[union-attr]
-                recv[i].append((nid, c))
+        if nid not in body:
+            continue
+        owner = [i for i, mk in rx.items() if fl.is_node(c.func.value, mk, nid)]  # type: ignore[union-attr]
+        if len(owner) != 1 or not isinstance(fl._parent.get(id(c)), ast.Await):
+            raise AnalysisError(f"{raw.qual}: `{u(c)}` in the round cannot be attributed to one phase's receiver")
+        recv[owner[0]].append((nid, c))
+
+    def phase_of(e: ast.AST, nid: int | None) -> int | None:
+        """The phase whose receive()s (of this round) `e` holds a sample of -- None if it is not exactly one phase."""
+        o = fl.origin(e, nid)
+        hit = {i for i in rx for q in o if q.kind == "expr" and any(unawait(q.node) is c for _n, c in recv[i])}
+        pure = bool(o) and all(q.kind == "expr" and any(unawait(q.node) is c for i in rx for _n, c in recv[i]) for q in o)
+        return hit.pop() if pure and len(hit) == 1 else None
+
+    def ts_phase(e: ast.AST, nid: int | None) -> int | None:
+        """`e` is <sample of phase i>.timestamp (possibly through a local): i."""
+        o = fl.origin1(e, nid)
+        if o is not None and o.kind == "expr" and isinstance(o.node, ast.Attribute) and o.node.attr == "timestamp":
+            return phase_of(o.node.value, o.nid)
+        return None
+
+    # the reference: max of the three samples' timestamps
+    refs: list[tuple[int, ast.Call]] = []
+    for nid, c in fl.calls(lambda c: u(c.func) == "max" and not c.keywords):
+        if nid not in body:
+            continue
+        args = list(c.args[0].elts) if len(c.args) == 1 and isinstance(c.args[0], (ast.Tuple, ast.List)) else list(c.args)
+        if sorted(p_ for p_ in (ts_phase(a, nid) for a in args) if p_ is not None) == [0, 1, 2] and len(args) == 3:
+            refs.append((nid, c))
+
+    def is_ref(e: ast.AST, nid: int | None) -> bool:
+        o = fl.origin(e, nid)
+        return bool(o) and all(q.kind == "expr" and any(unawait(q.node) is c for _n, c in refs) for q in o)
+
+    def lag(i: int, rel: str) -> Any:
+        """Scenario: the sample of phase i is older than (lt) / equal to (eq) the reference."""
+        val = {"lt": -1, "eq": 0}[rel]
+
+        def atom(e: ast.AST, nid: int) -> Tri:
+            if isinstance(e, ast.Compare) and len(e.ops) == 1:
+                for x, y, flip in ((e.left, e.comparators[0], False), (e.comparators[0], e.left, True)):
+                    if is_ref(y, nid) and ts_phase(x, nid) == i:
+                        return cmp_eval(e.ops[0], 0, val) if flip else cmp_eval(e.ops[0], val, 0)
+            return None
+        return lifted(fl, atom)
+
+    ctor = [(nid, c) for nid, c in fl.calls(lambda c: u(c.func).split("[")[0] == "Sample3Phase") if nid in body]
+    if len(ctor) != 1:
+        run.violation("C06.3PH", raw.qual, "Sample3Phase(...) once per round", f"{len(ctor)} three-phase samples are built per round",
+                      node=raw.node, file=raw.file)
+        return
+    cn, cc = ctor[0]
     for i in sorted(rx):
-        recs = [nid for nid, _c in recv[i] if nid in body]
-        wit = cfg.path(first[0], sends, avoid=recs, edge_ok=normal) if first[0] not in recs else None
-        twice = cfg.path(recs[0], recs, avoid=[h.id], include_src=False, edge_ok=normal) if recs else None
-        run.check(len(recs) == 1 and len(recv[i]) == 1 and bool(sends) and wit is None and twice is None, "C06.3PH", raw.qual,
-                  f"phase {i + 1}: receive() exactly once per round",
-                  "a phase is not received exactly once per emitted three-phase sample", node=raw.node, file=raw.file)
-    ctor = [(nid, c) for nid, c in fl.calls(lambda c: u(c.func).split("[")[0] == "Sample3Phase")]
-    ok = len(ctor) == 1 and sorted(rx) == [0, 1, 2]
+        nodes = [nid for nid, _c in recv[i]]
+        wit = cfg.path(first[0], [cn], avoid=nodes, edge_ok=normal) if first[0] not in nodes else None
+        run.check(bool(nodes) and wit is None, "C06.3PH", raw.qual, f"phase {i + 1}: received in every round",
+                  "a three-phase sample can be built without a sample of this phase received in the round", node=raw.node,
+                  file=raw.file, path=cfg.describe_path(wit))
+    # alignment
+    ok = len(refs) == 1
+    detail = ("the three per-phase samples are combined as they arrive: nothing establishes that they carry the same timestamp "
+              "(the per-phase engines synchronise only their own inputs and may start at different timestamps, so the sample "
+              "stamped T can carry another phase's value of a later step, for ever) -- expected the maximum of the three "
+              "timestamps as reference and a drain of every phase that is behind it")
     if ok:
-        nid, c = ctor[0]
-        a = positional(c, ["timestamp", "value_p1", "value_p2", "value_p3"])
+        rn = refs[0][0]
+        for i in sorted(rx):
+            nodes = [nid for nid, _c in recv[i]]
+            initial = [n for n in nodes if cfg.path(n, [rn], edge_ok=normal) is not None and cfg.path(rn, [n], avoid=[h.id], edge_ok=normal) is None]
+            drains = [n for n in nodes if n not in initial]
+            tests = [t.id for t in cfg.nodes if t.kind in ("test", "while") and t.id in body and t.ast is not None and any(
+                isinstance(x, ast.Compare) and len(x.ops) == 1 and (
+                    (is_ref(x.comparators[0], t.id) and ts_phase(x.left, t.id) == i) or (is_ref(x.left, t.id) and ts_phase(x.comparators[0], t.id) == i))
+                for x in ast.walk(t.ast if t.kind == "test" else t.ast.test))]  # type: ignore[union-attr]
+            lt, eq = pruned(cfg, lag(i, "lt")), pruned(cfg, lag(i, "eq"))
+            ok = bool(initial) and (first[0] in initial or cfg.path(first[0], [rn], avoid=initial, edge_ok=normal) is None)
+            detail = f"the reference timestamp is taken before phase {i + 1} was received"
+            if ok:
+                ok = bool(drains) and cfg.path(rn, [cn], avoid=drains, edge_ok=lt) is None
+                detail = (f"phase {i + 1} can be older than the reference timestamp when the three-phase sample is built: it is not "
+                          "received again while it lags (values of different timestamps are combined)")
+            if ok:
+                ok = all(cfg.path(d, [cn], avoid=tests, edge_ok=normal) is None for d in drains)
+                detail = f"after receiving phase {i + 1} again its timestamp is not compared with the reference again (one extra sample is not a drain)"
+            if ok:
+                ok = all(cfg.path(rn, [d], edge_ok=eq) is None for d in drains) and cfg.path(rn, [cn], edge_ok=eq) is not None
+                detail = f"phase {i + 1} is received again although it is not behind the reference (a sample of that phase is dropped)"
+            if not ok:
+                break
+    run.check(ok, "C06.3PH", raw.qual, "every phase drained up to max(the three timestamps) before the sample is built", detail,
+              node=raw.node, file=raw.file)
+    # the sample: values in phase order from the final samples, stamped with one of them (after the drains) or the reference
+    a = positional(cc, ["timestamp", "value_p1", "value_p2", "value_p3"])
 
-        def from_phase(e: ast.AST | None, attr: str, i: int) -> bool:
-            o = fl.origin1(e, nid) if e is not None else None
-            return o is not None and o.kind == "expr" and isinstance(o.node, ast.Attribute) and o.node.attr == attr \
-                and len(recv[i]) == 1 and fl.is_node(o.node.value, recv[i][0][1], o.nid)
+    def value_of(e: ast.AST | None, i: int) -> bool:
+        o = fl.origin1(e, cn) if e is not None else None
+        return o is not None and o.kind == "expr" and isinstance(o.node, ast.Attribute) and o.node.attr == "value" \
+            and phase_of(o.node.value, o.nid) == i
 
-        ok = len(a) == 4 and len(c.args) + len(c.keywords) == 4 and from_phase(a.get("timestamp"), "timestamp", 0) \
-            and all(from_phase(a.get(f"value_p{i + 1}"), "value", i) for i in range(3))
-        # what is sent is this sample
-        sent = [(n, x) for n, x in fl.calls(lambda k: method_call(k, None, "send")) if n in sends]
-        ok = ok and bool(sent) and all(len(x.args) == 1 and fl.is_node(x.args[0], c, n) for n, x in sent)
-    run.check(ok, "C06.3PH", raw.qual, "Sample3Phase(p1.timestamp, p1.value, p2.value, p3.value)",
+    def stamp_ok(e: ast.AST | None) -> bool:
+        if e is None:
+            return False
+        if is_ref(e, cn):
+            return True
+        o = fl.origin1(e, cn)
+        if o is None or o.kind != "expr" or not (isinstance(o.node, ast.Attribute) and o.node.attr == "timestamp"):
+            return False
+        k = phase_of(o.node.value, o.nid)
+        later = [nid for nid, _c in recv[k]] if k is not None else []
+        # read when the phase is final: no receive of that phase can follow the read within the round
+        return k is not None and all(cfg.path(o.nid, [d], avoid=[h.id], edge_ok=normal, include_src=False) is None for d in later if d != o.nid)
+
+    ok = len(a) == 4 and len(cc.args) + len(cc.keywords) == 4 and all(value_of(a.get(f"value_p{i + 1}"), i) for i in range(3))
+    run.check(ok, "C06.3PH", raw.qual, "Sample3Phase(.., p1.value, p2.value, p3.value) from this round's samples",
               "the three-phase sample is not built from this round's three received samples in phase order",
               node=raw.node, file=raw.file)
+    run.check(stamp_ok(a.get("timestamp")), "C06.3PH", raw.qual, "stamped with the (aligned) samples' timestamp",
+              "the three-phase sample is not stamped with the timestamp its three samples carry when it is built (a timestamp "
+              "read before a phase was drained, or from elsewhere)", node=raw.node, file=raw.file)
+    sent = [(n, x) for n, x in fl.calls(lambda k: method_call(k, None, "send")) if n in sends]
+    run.check(bool(sent) and all(len(x.args) == 1 and fl.is_node(x.args[0], cc, n) for n, x in sent)
+              and cfg.path(cn, [h.id], avoid=sends, edge_ok=normal) is None, "C06.3PH", raw.qual, "the sample built is what is sent",
+              "the three-phase sample built in the round is not (always) the one sent", node=raw.node, file=raw.file)
 
 
 def interchange_patch(prog: Program) -> tuple[str, str] | None:
@@ -1158,14 +1274,47 @@ def build_controls(prog: Program) -> list[tuple[str, str, str, str, str]]:
                 fnx.module, head.lineno, head.end_lineno or head.lineno,
                 lambda t_, head=head, tgt=tgt: f"{' ' * head.col_offset}{tgt} = await self._stream.receive()\n" + t_), "C06.ONE")
             break
-    # 3PH: one phase read twice, another never
+    # 3PH: one phase read twice, another never (on the first receives of the round)
     ph = prog.func(f"{ENGINE}:FormulaEngine3Phase._run")
     recs = [c for c in calls_in(ph, lambda c: method_call(c, None, "receive")) if isinstance(c.func.value, ast.Name)]  # type: ignore[union-attr]
+    recs.sort(key=lambda c: (c.lineno, c.col_offset))
     if len(recs) >= 3:
-        recs.sort(key=lambda c: (c.lineno, c.col_offset))
-        a, b = recs[-1], recs[-2]
+        a, b = recs[2], recs[1]
         ta, tb = seg(ph.module, a.func.value), seg(ph.module, b.func.value)  # type: ignore[union-attr]
         add("phase 2 read twice", ENGINE, stmt_patch(ph, a, lambda t, ta=ta, tb=tb: t.replace(f"{ta}.receive", f"{tb}.receive", 1)), "C06.3PH")
+    # 3PH alignment: no drain at all / drained against one phase instead of the maximum / drained from the wrong
+    # receiver / stamped with a timestamp read before the drains
+    drains = [w for w in ast.walk(ph.node) if isinstance(w, ast.While) and not (isinstance(w.test, ast.Constant))
+              and any(isinstance(x, ast.Call) and method_call(x, None, "receive") for x in ast.walk(w))]
+    drains.sort(key=lambda w: w.lineno)
+    if drains:
+        lo, hi = drains[0].lineno, max(w.end_lineno or w.lineno for w in drains)
+        add("phases zipped without a drain", ENGINE, src_patch(ph.module, lo, hi, lambda t: ""), "C06.3PH")
+    mx = next((x for x in ast.walk(ph.node) if isinstance(x, ast.Assign) and isinstance(x.value, ast.Call) and u(x.value.func) == "max"
+               and len(x.value.args) == 3), None)
+    if mx is not None:
+        mtxt, first_arg = seg(ph.module, mx.value), seg(ph.module, mx.value.args[0])  # type: ignore[union-attr]
+        add("drained against phase 1 instead of the maximum", ENGINE, stmt_patch(ph, mx, lambda t, mtxt=mtxt, first_arg=first_arg: t.replace(mtxt, first_arg, 1)), "C06.3PH")
+    if len(drains) >= 2:
+        c1 = next((x for x in ast.walk(drains[0]) if isinstance(x, ast.Call) and method_call(x, None, "receive")), None)
+        c2 = next((x for x in ast.walk(drains[1]) if isinstance(x, ast.Call) and method_call(x, None, "receive")), None)
+        if c1 is not None and c2 is not None:
+            r1, r2 = seg(ph.module, c1.func.value), seg(ph.module, c2.func.value)  # type: ignore[union-attr]
+            add("drained from the wrong receiver", ENGINE, stmt_patch(ph, c2, lambda t, r1=r1, r2=r2: t.replace(f"{r2}.receive", f"{r1}.receive", 1)), "C06.3PH")
+    ctor3 = next((c for c in calls_in(ph, lambda c: u(c.func).split("[")[0] == "Sample3Phase")), None)
+    if mx is not None and ctor3 is not None:
+        tsa = positional(ctor3, ["timestamp"]).get("timestamp")
+        if tsa is not None and tsa.lineno > mx.lineno:
+            ttxt = seg(ph.module, tsa)
+            ind = " " * mx.col_offset
+            n_before = tsa.lineno - mx.lineno
+
+            def stale(t: str, ttxt: str = ttxt, ind: str = ind, n_before: int = n_before) -> str:
+                ls = t.splitlines(keepends=True)
+                ls[n_before] = ls[n_before].replace(ttxt, "stamp_before_drain", 1)
+                return f"{ind}stamp_before_drain = {ttxt}\n" + "".join(ls)
+
+            add("stamped with a pre-drain timestamp", ENGINE, src_patch(ph.module, mx.lineno, tsa.end_lineno or tsa.lineno, stale), "C06.3PH")
     # SYNC (shared with C05.ALIGN): the drain loops interchanged
     add("drain loops interchanged", EVAL, interchange_patch(prog), "C06.SYNC")
     # EMIT: the residual test inverted (every well-formed round raises)
@@ -1207,7 +1356,7 @@ def build_controls(prog: Program) -> list[tuple[str, str, str, str, str]]:
         add("Divider raises on a zero divisor", STEPS, stmt_patch(dv, x, lambda t, txt=txt, keep=keep: t.replace(txt, keep, 1)), "C06.TOTAL")
         break
     if len(out) < 6:
-        raise AnalysisError(f"C06: only {len(out)} of 13 seeded controls could be derived from the source ({[o[0] for o in out]})")
+        raise AnalysisError(f"C06: only {len(out)} of 17 seeded controls could be derived from the source ({[o[0] for o in out]})")
     return out
 
 
@@ -1242,7 +1391,8 @@ def check(run: Run, prog: Program, tier: str) -> str:
     run.rule("C06.TS", "output timestamp from fetched samples only; steps evaluated after it is fixed; first run synchronises")
     run.rule("C06.SYNC", "first-run synchronisation drains every stream of every lagging group up to the latest first timestamp")
     run.rule("C06.FSYNC", "fallback synchronisation keeps per-timestamp alignment")
-    run.rule("C06.3PH", "three-phase zip: one sample per phase per round, stamped with a received timestamp")
+    run.rule("C06.3PH", "three-phase zip: every phase received each round and drained up to max(the three timestamps) before the "
+             "sample is built from the three (now equally stamped) samples in phase order, stamped with their timestamp, and sent")
     run.rule("C06.EMIT", "a complete round (all inputs delivered, one residual value) makes apply() return its sample; "
              "assertions about delivered samples hold")
     run.rule("C06.TOTAL", "no abstract path of a step's apply() raises: FormulaEngine._run drops the round on any exception, "
@@ -1252,7 +1402,7 @@ def check(run: Run, prog: Program, tier: str) -> str:
     run.floor("C06.ONE", 15)
     run.floor("C06.TS", 4)
     run.floor("C06.SYNC", 4)
-    run.floor("C06.3PH", 5)
+    run.floor("C06.3PH", 8)
     run.floor("C06.TOTAL", 20)
     run.floor("C06.EMIT", 2)
     from ..engine.controls import run_controls
@@ -1260,10 +1410,9 @@ def check(run: Run, prog: Program, tier: str) -> str:
     run_controls(run, [] if run.violations else build_controls(prog), run_rules, tier)
     run.assume("input streams are themselves timestamp-synchronous once aligned (resampler output): one "
                "receive per stream per round then keeps them aligned")
-    run.undecided("behaviour when receiver buffers overflow; whether the three per-phase engines stay "
-                  "aligned when their first timestamps differ (FormulaEngine3Phase performs no "
-                  "synchronisation of its own — reported by a seeding sub-agent as a clean-tree "
-                  "observation; it is a scheduling/alignment property this family cannot decide)")
+    run.undecided("behaviour when receiver buffers overflow; a per-phase engine that skips a timestamp after the "
+                  "three have been aligned (the drain handles a lagging phase, an overshooting one is re-aligned in "
+                  "the next round)")
     return ("Exactly-once / must-precede path rules on the exception-aware CFGs of the evaluator and the "
             "metric fetcher; provenance of the emitted timestamp by reaching definitions (through locals, "
             "tuple unpacking and private helpers); three-valued path conditions (pending / None results, "
